@@ -939,3 +939,17 @@ def triangle_method(eng, callee, a, m, fc):
     if name == 'new':
         return Struct('Triangle', [a[0], a[1], a[2]])
     raise Unsupported('Triangle::' + name)
+
+
+@ext(r'^<Matrix<.*> as Into<\[f64; \w+\]>>::into$|^<\[f64; \w+\] as From<Matrix<.*>>>::from$')
+def matrix_into_array(eng, callee, a, m, fc):
+    return list(vec_of(a[0]))
+
+
+@ext(r'(?:^|::)ConvexPolygon::(\w+)$')
+def convex_polygon(eng, callee, a, m, fc):
+    name = m.group(1)
+    cp = unref(a[0])
+    if name == 'points':
+        return Ref(lambda: cp[0])
+    raise Unsupported('ConvexPolygon::' + name)
